@@ -2,10 +2,14 @@
 package c17
 
 import (
+	"fmt"
+	"path/filepath"
+	"strings"
 	"testing"
 	"time"
 
 	"github.com/versity/versitygw/auth"
+	"replay/gwtest"
 )
 
 type store struct{ m map[string]auth.Account }
@@ -33,5 +37,49 @@ func TestCreatedAccountHasAllAttributes(t *testing.T) {
 	got, err := c.GetUserAccount("alice")
 	if err != nil || got != want {
 		t.Fatalf("account right after creation: %+v, want %+v (uid/gid are used for file ownership)", got, want)
+	}
+}
+
+// The account cache must not key its entries by a string that aliases the request buffer. fiber runs without Immutable,
+// so the access key parsed from an Authorization header whose parts are separated by "," (no space) is a view of the
+// reused header buffer; the miss path of IAMCache.GetUserAccount stored exactly that string as the map key. The next
+// request overwrote the key's bytes: an unknown access key was matched with the cached account of another one, and a
+// deleted account stayed in the cache because the delete no longer found its (rewritten) key.
+func TestDeletedAccountIsGoneWithCompactAuthorization(t *testing.T) {
+	g := gwtest.Start(t, gwtest.Options{IAMCache: true})
+	// the account is written to the store by another service instance on the same directory (a second gateway, or an
+	// entry whose cache time has run out, reach the same path): the gateway's first lookup of it misses the cache
+	side, err := auth.New(&auth.Opts{RootAccount: auth.Account{Access: g.RootC.Access, Secret: g.RootC.Secret, Role: auth.RoleAdmin},
+		Dir: filepath.Join(g.Top, "iam"), CacheDisable: true})
+	if err != nil {
+		t.Fatal(err)
+	}
+	alice := gwtest.Cred{Access: "alice", Secret: "alicesecret"}
+	if err := side.CreateAccount(auth.Account{Access: alice.Access, Secret: alice.Secret, Role: auth.RoleUser}); err != nil {
+		t.Fatal(err)
+	}
+	code := func(r *gwtest.Resp) string {
+		s := string(r.Body)
+		i, j := strings.Index(s, "<Code>"), strings.Index(s, "</Code>")
+		if i < 0 || j < 0 {
+			return fmt.Sprint(r.Status)
+		}
+		return s[i+6 : j]
+	}
+	req := func(c gwtest.Cred) *gwtest.Resp {
+		return g.Do(gwtest.Req{Method: "GET", Target: "/", Cred: c, CompactAuth: true})
+	}
+	if r := req(alice); r.Status != 200 {
+		t.Fatalf("alice lists buckets: %v", r)
+	}
+	bobby := gwtest.Cred{Access: "bobby", Secret: "whatever"}
+	if c := code(req(bobby)); c != "InvalidAccessKeyId" {
+		t.Errorf("unknown access key bobby: %s, want InvalidAccessKeyId (it was matched with alice's cache entry)", c)
+	}
+	if err := g.IAM.DeleteUserAccount("alice"); err != nil {
+		t.Fatal(err)
+	}
+	if c := code(req(alice)); c != "InvalidAccessKeyId" {
+		t.Errorf("alice after her account was deleted: %s, want InvalidAccessKeyId", c)
 	}
 }
